@@ -111,8 +111,9 @@ def fresh_results():
 
 def work(payload, skip, report):
     acc = Acc(PROP)
-    body, wrapper, position, follow = payload
-    case = {"body": body, "wrapper": wrapper, "position": position, "followed_by": list(follow),
+    body, wrapper, position, follow = payload[:4]
+    LIMIT = payload[4] if len(payload) > 4 else globals()["LIMIT"]     # the configured limit of this chunk (seconds)
+    case = {"body": body, "wrapper": wrapper, "position": position, "followed_by": list(follow), "limit": LIMIT,
             "lua": module_text(body, wrapper, position)[:300]}
     if 0 in skip:
         acc.case()
@@ -149,7 +150,7 @@ def work(payload, skip, report):
         close_ctx(ctx2)
     acc.case()
     acc.distinct("programs", [body, wrapper, position])
-    finished_early = dt < LIMIT * 0.9
+    finished_early = dt < LIMIT * 0.9 and LIMIT >= 1     # (the clock counts whole seconds: a sub-second limit may fire at once)
     if dt > LIMIT + SLACK:
         acc.violation("aborted_within_bound", case, "returned after %.1f s" % dt, "<= %.1f s" % (LIMIT + SLACK))
     if res.startswith("EXC "):
@@ -196,6 +197,10 @@ def main(run):
         for pos in ("function_name_from_invoke", "function_argname_from_invoke", "function_inside_argument_of_invoke"):
             chunks.append(("while", "none", pos, ("benign",)))
             chunks.append(("while", "pcall", pos, ("benign_long",)))
+        # other limits than 1 s: below a second, fractional, two seconds
+        for lim in (0.5, 0.25, 1.5, 2):
+            chunks.append(("while", "none", "function", ("benign",), lim))
+            chunks.append(("while", "pcall", "function", ("benign_long",), lim))
         chunks.append(("while", "none", "function", ("python_oserror", "timing_out", "benign")))
         chunks.append(("while", "pcall", "function", ("python_unicode", "timing_out", "guarded")))
         chunks.append(("nested_inner_loop", "none", "function", ("python_oserror", "timing_out")))
@@ -209,6 +214,10 @@ def main(run):
         for h in hist:
             chunks.append(("while", "none", "function", h))
             chunks.append(("while", "pcall", "function", h))
+        for lim in (0.02, 0.25, 0.5, 0.99, 1.5, 2, 3):
+            for b, w in (("while", "none"), ("while", "pcall"), ("while", "xpcall"), ("nested_inner_loop", "none"), ("tail_recursion", "pcall")):
+                if b in BODIES and w in WRAPPERS:
+                    chunks.append((b, w, "function", ("benign", "timing_out"), lim))
         for pos in ("function_name_from_invoke", "function_argname_from_invoke", "function_inside_argument_of_invoke"):
             for b, w in itertools.product(("while", "nested_inner_loop", "preprocess_invoke"), ("none", "pcall", "xpcall")):
                 if w in WRAPPERS and b in BODIES:
